@@ -65,18 +65,43 @@ def entry_text(e, escname):
     return f'(INTERCONNECT {escname(e["a"])} {escname(e["b"])} {body})'
 
 
-def render_sdf(blocks, escape):
+LAYOUTS = ['plain', 'multi_delay', 'timingcheck_between', 'delay_first', 'empty_delay', 'headers', 'oneline']
+
+
+def render_sdf(blocks, escape, layout='plain'):
+    """layout: how a CELL block arranges its sections (all forms the grammar accepts)
+    plain: CELLTYPE, INSTANCE, one DELAY section | multi_delay: every entry in a DELAY section of its own |
+    timingcheck_between: two DELAY sections with a TIMINGCHECK section between them | delay_first: DELAY section before
+    CELLTYPE/INSTANCE | empty_delay: an empty DELAY section precedes the real one | headers: all optional file header
+    entries and // comments | oneline: no line breaks"""
     escname = (lambda s: s.replace('.', '\\.')) if escape else (lambda s: s)
-    out = ['(DELAYFILE', '(SDFVERSION "OVI 2.1")', '(DESIGN "top")', '(DIVIDER /)', '(TIMESCALE 1ns)']
+    out = ['(DELAYFILE', '(SDFVERSION "OVI 2.1")', '(DESIGN "top")']
+    if layout == 'headers':
+        out += ['// a comment line', '(DATE "Sat Oct  3 2026")', '(VENDOR "v")', '(PROGRAM "p")', '(VERSION "1.0")', '(DIVIDER /)', '(VOLTAGE 1.2:1.2:1.2)',
+                '(PROCESS "typ")', '(TEMPERATURE 25:25:25)', '(TIMESCALE 1ns) // trailing comment']
+    else:
+        out += ['(DIVIDER /)', '(TIMESCALE 1ns)']
+    def section(entries):
+        return ['  (DELAY (ABSOLUTE'] + ['    ' + entry_text(e, escname) for e in entries] + ['  ))']
+    tcheck = '  (TIMINGCHECK (SETUP (posedge D) (posedge CLK) (0.1:0.1:0.1)) (HOLD D (posedge CLK) (0.0:0.0:0.0)))'
     for inst, ctype, entries in blocks:
+        head = [f'  (CELLTYPE "{ctype}")', f'  (INSTANCE {escname(inst)})' if inst else '  (INSTANCE)']
         out.append('(CELL')
-        out.append(f'  (CELLTYPE "{ctype}")')
-        out.append(f'  (INSTANCE {escname(inst)})' if inst else '  (INSTANCE)')
-        out.append('  (DELAY (ABSOLUTE')
-        for e in entries: out.append('    ' + entry_text(e, escname))
-        out.append('  ))')
+        if layout == 'multi_delay':
+            out += head
+            for e in entries: out += section([e])
+        elif layout == 'timingcheck_between':
+            h = (len(entries) + 1) // 2
+            out += head + section(entries[:h]) + [tcheck] + section(entries[h:])
+        elif layout == 'delay_first':
+            out += section(entries) + head
+        elif layout == 'empty_delay':
+            out += head + section([]) + section(entries)
+        else:
+            out += head + section(entries)
         out.append(')')
     out.append(')')
+    if layout == 'oneline': return ' '.join(x.strip() for x in out) + '\n'
     return '\n'.join(out) + '\n'
 
 
@@ -202,7 +227,8 @@ def sdf_case(res, case, ctx=None):
     libname, dname, bf, escape, blocks = case['lib'], case['design'], case['bf'], case['escape'], case['blocks']
     lib, nl, c, instances, vtext = ctx or build_design(libname, dname, bf, escape)
     res.evals += 1
-    text = render_sdf(blocks, escape)
+    text = render_sdf(blocks, escape, case.get('layout', 'plain'))
+    res.count('layout_' + case.get('layout', 'plain'))
     key = f'C14/{libname}/{dname}/{"bf" if bf else "plain"}{"/esc" if escape else ""}/{common.h64(text):016x}'
     case = dict(case, text=text)
     try:
@@ -275,9 +301,9 @@ def run_design(res, libname, dname, bf, tier, seed):
         lib, nl, c, instances, vtext = ctx
         ios = io_candidates(instances)
         ics = ic_candidates(lib, c, instances)
-        def run(entries, mode='per_inst'):
+        def run(entries, mode='per_inst', layout='plain'):
             blocks = group(entries, instances, mode)
-            sdf_case(res, {'kind': 'sdf', 'lib': libname, 'design': dname, 'bf': bf, 'escape': escape, 'blocks': blocks}, ctx)
+            sdf_case(res, {'kind': 'sdf', 'lib': libname, 'design': dname, 'bf': bf, 'escape': escape, 'blocks': blocks, 'layout': layout}, ctx)
         def io(k, i, **kw):
             iname, cell, p, op = ios[k]
             return (iname, mk('io', i, pin=p, opin=op, **kw))
@@ -295,6 +321,13 @@ def run_design(res, libname, dname, bf, tier, seed):
         for p in perms:
             for mode in ('per_inst', 'split', 'interleaved'):
                 run([full[k] for k in p], mode)
+        # CELL section layouts x groupings on the full set (forward and reversed) and on every (n-1)-subset
+        for layout in LAYOUTS[1:]:
+            for mode in ('per_inst', 'split', 'interleaved'):
+                run(full, mode, layout)
+                run(full[::-1], mode, layout)
+            for k in range(n):
+                run(full[:k] + full[k + 1:] + [io(k, n + 5, edge='negedge')], 'per_inst', layout)
         # single deviations: edge qualifier / value form per entry; duplicates overwrite
         for k in range(n):
             for edge in ('posedge', 'negedge'):
@@ -316,6 +349,9 @@ def run_design(res, libname, dname, bf, tier, seed):
         run(allic, 'split')
         run(full + allic, 'interleaved')
         run(allic[: m // 2] + full + allic[m // 2:], 'split')
+        for layout in LAYOUTS[1:]:
+            run(allic, 'per_inst', layout)
+            run(allic[: m // 2] + full + allic[m // 2:], 'per_inst', layout)
         for k in range(m):
             run([ic(k, 30 + k)])
             run(allic[:k] + [ic(k, 40, zero=True)] + allic[k + 1:], 'split')
